@@ -38,49 +38,6 @@ Proof. unfold umul. rewrite expand_app. apply get_app. Qed.
 Lemma get_expand_udiv G a b k : (get (expand G (udiv a b)) k == get (expand G a) k - get (expand G b) k)%Q.
 Proof. unfold udiv, uinv. rewrite get_expand_umul, get_expand_upow. ring. Qed.
 
-(* ---- environments without dimension-less base units (pint's radian): factor 1 means equivalent ------- *)
-Definition pure_vec (v : uvec) : bool := forallb (fun ke => is_dim (fst ke) || is_scale (fst ke)) v.
-Definition pure (G : env) : bool := forallb pure_vec (atoms G).
-
-Lemma angle_pure v : pure_vec v = true -> angle v = [].
-Proof.
-  induction v as [|ke v IH]; cbn [pure_vec forallb angle filter]; [reflexivity|]. intros H.
-  apply andb_prop in H as [Hk H]. apply orb_prop in Hk. fold (angle v).
-  destruct Hk as [Hk|Hk]; rewrite Hk; cbn [negb andb]; rewrite ?andb_false_r; apply IH; exact H.
-Qed.
-
-Lemma pure_upow v q : pure_vec (upow v q) = pure_vec v.
-Proof. unfold pure_vec, upow. induction v as [|ke v IH]; cbn [map forallb fst]; [reflexivity | rewrite IH; reflexivity]. Qed.
-
-Lemma pure_expand G n : pure G = true -> pure_vec (expand G n) = true.
-Proof.
-  intros HG. induction n as [|[j e] n IH]; cbn [expand fst snd]; [reflexivity|].
-  unfold pure_vec. rewrite forallb_app. fold (pure_vec (upow (atom_vec G j) e)). fold (pure_vec (expand G n)).
-  rewrite pure_upow, IH, andb_true_r. unfold atom_vec.
-  destruct (nthZ (atoms G) j) as [v|] eqn:Hj; [|reflexivity].
-  unfold pure in HG. rewrite forallb_forall in HG. apply HG.
-  unfold nthZ in Hj. destruct (j <? 0); [discriminate|]. eapply nth_error_In; exact Hj.
-Qed.
-
-Lemma split_ueq a b : ueq (dims a) (dims b) -> ueq (scale a) (scale b) -> angle a = [] -> angle b = [] -> ueq a b.
-Proof.
-  intros Hd Hs Ha Hb k. pose proof (Hd k) as Hdk. pose proof (Hs k) as Hsk.
-  rewrite !get_dims in Hdk. rewrite !get_scale in Hsk.
-  pose proof (get_angle a k) as Hak. pose proof (get_angle b k) as Hbk. rewrite Ha in Hak. rewrite Hb in Hbk.
-  cbn [get] in Hak, Hbk.
-  destruct (is_dim k); [exact Hdk|]. destruct (is_scale k); [exact Hsk|]. cbn in Hak, Hbk.
-  rewrite <- Hak, <- Hbk. reflexivity.
-Qed.
-
-Lemma conv_one_ueq G a b cf : pure G = true ->
-  conv (expand G a) (expand G b) = Some cf -> is_one cf = true -> ueq (expand G a) (expand G b).
-Proof.
-  intros HG Hc H1.
-  assert (He : equivb (expand G a) (expand G b) = true) by (apply equiv_iff_conv_one; exists cf; split; assumption).
-  apply equivb_spec in He as [Hd Hs].
-  apply split_ueq; try assumption; apply angle_pure; apply pure_expand; exact HG.
-Qed.
-
 (* ---- extending the unit table ------------------------------------------------------------------------- *)
 Definition ext (G : env) (T : list nunit) : env := mkEnv (atoms G) (utab G ++ T) (vtab G).
 
@@ -129,11 +86,11 @@ Fixpoint erase (N : Z) (e : expr) : expr :=
   end.
 
 (* ---- the guard ---------------------------------------------------------------------------------------------- *)
-(* exponent: a number literal or a quantity whose unit is literally the empty product *)
+(* exponent: a number literal or a quantity whose unit has no dimension and scale 1, whatever its name *)
 Definition simple_exp (G : env) (x : expr) : bool :=
   match x with
   | ENum _ _ => true
-  | EQty _ _ u => match lookup_unit G u with Some [] => true | _ => false end
+  | EQty _ _ u => match lookup_unit G u with Some n => dim_dimless G n | None => false end
   | _ => false
   end.
 
@@ -168,19 +125,38 @@ Qed.
 (* ---- strict inference on the decorated output ------------------------------------------------------------------ *)
 Section Infer.
   Variable G : env.
-  Hypothesis HG : pure G = true.
   Notation N := (tabN G).
 
-  Definition E (a b : nunit) : Prop := ueq (expand G a) (expand G b).
-  Lemma E_refl a : E a a. Proof. apply ueq_refl. Qed.
-  Lemma E_sym a b : E a b -> E b a. Proof. apply ueq_sym. Qed.
-  Lemma E_trans a b c : E a b -> E b c -> E a c. Proof. apply ueq_trans. Qed.
-  Lemma E_ueq a b : ueq a b -> E a b. Proof. apply expand_ueq. Qed.
+  (* equivalent: same dimension part and same scale (a dimension-less base unit such as radian is ignored) *)
+  Definition E (a b : nunit) : Prop :=
+    forall k, is_dim k || is_scale k = true -> (get (expand G a) k == get (expand G b) k)%Q.
+  Lemma E_refl a : E a a. Proof. intros k _. reflexivity. Qed.
+  Lemma E_sym a b : E a b -> E b a. Proof. intros H k Hk. symmetry. apply H. exact Hk. Qed.
+  Lemma E_trans a b c : E a b -> E b c -> E a c. Proof. intros H1 H2 k Hk. rewrite (H1 k Hk). apply H2. exact Hk. Qed.
+  Lemma E_ueq a b : ueq a b -> E a b. Proof. intros H k _. apply expand_ueq. exact H. Qed.
 
   Lemma E_umul a a' b b' : E a a' -> E b b' -> E (umul a b) (umul a' b').
-  Proof. intros Ha Hb k. rewrite !get_expand_umul, (Ha k), (Hb k). reflexivity. Qed.
+  Proof. intros Ha Hb k Hk. rewrite !get_expand_umul, (Ha k Hk), (Hb k Hk). reflexivity. Qed.
   Lemma E_upow a a' q : E a a' -> E (upow a q) (upow a' q).
-  Proof. intros Ha k. rewrite !get_expand_upow, (Ha k). reflexivity. Qed.
+  Proof. intros Ha k Hk. rewrite !get_expand_upow, (Ha k Hk). reflexivity. Qed.
+
+  Lemma E_of_parts a b : ueq (dims (expand G a)) (dims (expand G b)) -> ueq (scale (expand G a)) (scale (expand G b)) -> E a b.
+  Proof.
+    intros Hd Hs k Hk. pose proof (Hd k) as Hdk. pose proof (Hs k) as Hsk. rewrite !get_dims in Hdk. rewrite !get_scale in Hsk.
+    destruct (is_dim k); [exact Hdk|]. cbn [orb] in Hk. rewrite Hk in Hsk. exact Hsk.
+  Qed.
+  Lemma E_parts a b : E a b -> ueq (dims (expand G a)) (dims (expand G b)) /\ ueq (scale (expand G a)) (scale (expand G b)).
+  Proof.
+    intros H. split; intro k.
+    - rewrite !get_dims. destruct (is_dim k) eqn:Hk; [apply H; rewrite Hk; reflexivity | reflexivity].
+    - rewrite !get_scale. destruct (is_scale k) eqn:Hk; [apply H; rewrite Hk; apply orb_true_r | reflexivity].
+  Qed.
+  Lemma conv_one_E a b cf : conv (expand G a) (expand G b) = Some cf -> is_one cf = true -> E a b.
+  Proof.
+    intros Hc H1.
+    assert (He : equivb (expand G a) (expand G b) = true) by (apply equiv_iff_conv_one; exists cf; split; assumption).
+    apply equivb_spec in He as [Hd Hs]. apply E_of_parts; assumption.
+  Qed.
 
   (* never a UnitError; a returned unit is equivalent to u; Python exceptions / declined cases are allowed *)
   Definition good (u : nunit) (res : ures qu) : Prop :=
@@ -193,12 +169,11 @@ Section Infer.
   Lemma dim_dimless_ext T a : dim_dimless (ext G T) a = dim_dimless G a.
   Proof. unfold dim_dimless. rewrite !expand_ext. reflexivity. Qed.
   Lemma E_sem_equiv a b : E a b -> sem_equiv G a b = true.
-  Proof. intros H. unfold sem_equiv. apply ueqb_spec. exact H. Qed.
+  Proof. intros H. unfold sem_equiv. apply equivb_spec. apply E_parts. exact H. Qed.
   Lemma E_dimless a : E a [] -> dim_dimless G a = true.
   Proof.
-    unfold E. cbn [expand]. intros H. unfold dim_dimless, dimensionless_b, is_one. apply andb_true_intro. split.
-    - apply ueqb_spec. apply (dims_ueq _ _ H).
-    - apply ueqb_spec. apply (scale_ueq _ _ H).
+    intros H. apply E_parts in H as [Hd Hs]. cbn [expand] in Hd, Hs.
+    unfold dim_dimless, dimensionless_b, is_one. apply andb_true_intro. split; apply ueqb_spec; assumption.
   Qed.
 
   Lemma goods_cons G' x r u us :
@@ -277,7 +252,7 @@ Section Infer.
       destruct (is_one cf) eqn:H1.
       + injection H as <- _ <-. exists D1, e1''. split; [exact He|]. intros Hg Th. specialize (Hg Th).
         destruct (infer (ext G (T ++ D1 ++ Th)) e1'') as [r| | |]; cbn [good] in *; try tauto.
-        eapply E_trans; [exact Hg | exact (conv_one_ueq G from t cf HG Hcf H1)].
+        eapply E_trans; [exact Hg | exact (conv_one_E from t cf Hcf H1)].
       + destruct (cfq cf) as [[q d]|]; [|discriminate]. injection H as <- _ <-.
         exists (D1 ++ [udiv t from]), (EMul [EQty (- d) q (N + Z.of_nat (length (T ++ D1))); e1'']). split.
         * cbn [erase map]. rewrite He. replace (N <=? N + Z.of_nat (length (T ++ D1))) with true by (symmetry; apply Z.leb_le; lia).
@@ -291,8 +266,8 @@ Section Infer.
           match goal with |- context [infer ?g e1''] =>
             assert (Hg : good from (infer g e1'')) by exact (Hg0 (udiv t from :: Th));
             destruct (infer g e1'') as [r| | |] end; cbn [good bindr infer_prod fold_left] in *; try tauto.
-          cbn [good bindr infer_prod fold_left]. unfold qmul, E in *. cbn [fst] in *. intro k.
-          rewrite get_expand_umul, get_expand_udiv, (Hg k). ring.
+          cbn [good bindr infer_prod fold_left]. unfold qmul, E in *. cbn [fst] in *. intros k Hk.
+          rewrite get_expand_umul, get_expand_udiv, (Hg k Hk). ring.
     - injection H as <- _ <-. exists D1, e1''. split; [exact He | exact (fun H => H)].
   Qed.
 
@@ -369,28 +344,36 @@ Section Infer.
       eapply ueq_trans; [apply K; exact Ha | apply ueq_sym; apply K; exact Hb].
   Qed.
 
-  Lemma mc_nil e c : maybe_convert G e c [] (Some []) = UOk (e, c, []).
-  Proof. reflexivity. Qed.
+  Lemma mc_dimless e c n : dim_dimless G n = true -> maybe_convert G e c n (Some []) = UOk (e, c, []).
+  Proof.
+    unfold dim_dimless. intros H. apply andb_prop in H as [Hd Hs]. unfold maybe_convert, conv. cbn [expand].
+    change (same_dims (expand G n) []) with (dimensionless_b (expand G n)). rewrite Hd.
+    replace (udiv (expand G n) []) with (expand G n) by (unfold udiv, uinv, umul, upow; cbn [map]; rewrite app_nil_r; reflexivity).
+    rewrite Hs. reflexivity.
+  Qed.
 
   Lemma simple_conv x x' cx ux : simple_exp G x = true -> convert G x (Some []) = UOk (x', cx, ux) -> x' = x.
   Proof.
     destruct x; cbn [simple_exp]; try discriminate; intros Hs H; cbn [convert] in H.
     - injection H as <- _ _. reflexivity.
-    - destruct (lookup_unit G u) as [[|a n]|]; try discriminate. rewrite mc_nil in H. injection H as <- _ _. reflexivity.
+    - destruct (lookup_unit G u) as [n|]; [|discriminate]. rewrite (mc_dimless _ _ _ Hs) in H. injection H as <- _ _. reflexivity.
   Qed.
 
   Lemma simple_erase x x'' : simple_exp G x = true -> erase N x'' = x -> x'' = x.
   Proof.
     destruct x; cbn [simple_exp]; try discriminate; intros Hs H; destruct x''; cbn [erase] in H; try discriminate.
     - exact H.
-    - injection H as -> -> Hu. f_equal. destruct (N <=? u0); [|exact Hu]. subst u. discriminate.
+    - injection H as -> -> Hu. f_equal. destruct (N <=? u0); [|exact Hu]. subst u.
+      unfold lookup_unit, nthZ in Hs. cbn in Hs. discriminate.
   Qed.
 
-  Lemma simple_infer T x : simple_exp G x = true -> exists mg, infer (ext G T) x = UOk ([], mg).
+  Lemma simple_infer T x : simple_exp G x = true ->
+    exists n mg, infer (ext G T) x = UOk (n, mg) /\ dim_dimless G n = true.
   Proof.
     destruct x; cbn [simple_exp]; try discriminate; intros Hs; cbn [infer].
-    - eexists; reflexivity.
-    - destruct (lookup_unit G u) as [[|a n]|] eqn:Hu; try discriminate. erewrite lookup_ext by exact Hu. eexists; reflexivity.
+    - eexists _, _. split; reflexivity.
+    - destruct (lookup_unit G u) as [n|] eqn:Hu; [|discriminate]. erewrite lookup_ext by exact Hu.
+      eexists _, _. split; [reflexivity | exact Hs].
   Qed.
 
   (* And / Or / functions: the decoration part (erase), shared by the EFn and EBool cases *)
@@ -485,10 +468,10 @@ Section Infer.
       match goal with |- context [infer ?g b''] =>
         change (good ub (infer g b'')) in Hgb; destruct (infer g b'') as [[nb mb]| | |] end;
         cbn [good bindr fst] in *; try tauto.
-      destruct (simple_infer (T ++ Dx ++ Db ++ Th) e2 Hsx) as [mg Hi].
-      match goal with |- context [infer ?g e2] => replace (infer g e2) with (UOk ([] : nunit, mg)) by (symmetry; exact Hi) end.
+      destruct (simple_infer (T ++ Dx ++ Db ++ Th) e2 Hsx) as [nx [mg [Hi Hdn]]].
+      match goal with |- context [infer ?g e2] => replace (infer g e2) with (UOk (nx, mg)) by (symmetry; exact Hi) end.
       cbn [bindr fst]. rewrite (expo_infer_of_value _ _ _ Hv). unfold infer_pow.
-      change (syn_dimless []) with true. cbn [negb].
+      rewrite dim_dimless_ext, Hdn. cbn [negb].
       destruct (mpow mb m true) as [mr|k0| |] eqn:Hmp; cbn [bindr good fst]; try exact I;
         [|exact (mpow_no_err _ _ _ _ Hmp)].
       destruct (syn_dimless nb) eqn:Hd.
@@ -587,58 +570,60 @@ Definition no_python_exception (G : env) (e : expr) : bool :=
   match infer G e with UOther | UUnsupp => false | _ => true end.
 
 Lemma result_infers_partial : forall G e to e' c u,
-  convert G e to = UOk (e', c, u) -> pure G = true -> strictb G e = true ->
+  convert G e to = UOk (e', c, u) -> strictb G e = true ->
   exists D e'', erase (tabN G) e'' = e' /\
     forall Th, match infer (ext G (D ++ Th)) e'' with
-               | UOk r => ueq (expand G (fst r)) (expand G u)
+               | UOk r => sem_equiv G (fst r) u = true
                | UErr _ => False
                | UOther | UUnsupp => True
                end.
 Proof.
-  intros G e to e' c u H HG Hs. destruct (infer_all G HG e to e' c u [] H) as [D [e'' [Ee Hg]]].
-  exists D, e''. split; [exact Ee|]. intros Th. exact (Hg Hs Th).
+  intros G e to e' c u H Hs. destruct (infer_all G e to e' c u [] H) as [D [e'' [Ee Hg]]].
+  exists D, e''. split; [exact Ee|]. intros Th. specialize (Hg Hs Th). cbn [app] in Hg.
+  destruct (infer (ext G (D ++ Th)) e'') as [r|k| |]; cbn [good] in Hg; try exact Hg. apply E_sem_equiv. exact Hg.
 Qed.
 
 Lemma result_infers : forall G e to e' c u,
-  convert G e to = UOk (e', c, u) -> pure G = true -> strictb G e = true ->
+  convert G e to = UOk (e', c, u) -> strictb G e = true ->
   exists D e'', erase (tabN G) e'' = e' /\
     forall Th, no_python_exception (ext G (D ++ Th)) e'' = true ->
-      exists r, infer (ext G (D ++ Th)) e'' = UOk r /\ ueq (expand G (fst r)) (expand G u).
+      exists r, infer (ext G (D ++ Th)) e'' = UOk r /\ sem_equiv G (fst r) u = true.
 Proof.
-  intros G e to e' c u H HG Hs. destruct (result_infers_partial G e to e' c u H HG Hs) as [D [e'' [Ee Hg]]].
+  intros G e to e' c u H Hs. destruct (result_infers_partial G e to e' c u H Hs) as [D [e'' [Ee Hg]]].
   exists D, e''. split; [exact Ee|]. intros Th. specialize (Hg Th). unfold no_python_exception.
   destruct (infer (ext G (D ++ Th)) e'') as [r|k| |]; try discriminate; [|destruct Hg].
   intros _. exists r. split; [reflexivity | exact Hg].
 Qed.
 
-
-(* why each part of the guard is there: three converted expressions that strict inference rejects *)
+(* the former counter-examples, repaired in /repo and in the model: radian next to dimensionless operands, an
+   exponent in a named unit equal to dimensionless.  What is left outside the guard and really fails: Max of two
+   arguments (strict inference has no rule for functions of two arguments; Max / Min / Mod are outside the operators
+   the property quantifies over). *)
 Definition G_rad : env :=            (* atom 0 = radian (pint: a base unit without dimension) *)
   mkEnv [[((-8)%Z, 1%Q)]] [[]; [(0%Z, 1%Q)]] [(1%Z, None); (0%Z, None)].
 Definition G_one : env :=            (* atom 0 = a named unit equal to dimensionless, atom 1 = mV *)
   mkEnv [[]; [(2%Z, (-3 # 1)%Q); (5%Z, (-3 # 1)%Q); ((-2)%Z, 1%Q); ((-1)%Z, 2%Q); ((-3)%Z, (-3 # 1)%Q); ((-4)%Z, (-1 # 1)%Q)]]
         [[]; [(0%Z, 1%Q)]; [(1%Z, 1%Q)]] [(2%Z, None)].
 
-Lemma result_infers_refuted :
-  (* r[radian] + k[dimensionless]: factor 1, nothing converted; inference compares base units *)
-  (let e := EAdd [EVar 0; EVar 1] in
-   convert G_rad e None = UOk (e, false, [(0%Z, 1%Q)]) /\ strictb G_rad e = true /\ pure G_rad = false /\
-   infer G_rad e = UErr EInvalidUnits) /\
-  (* a ** _2[one]: the exponent's unit is equivalent to dimensionless but is not the empty unit *)
-  (let e := EPow (EVar 0) (EQty 0 2 1) in
-   exists u, convert G_one e None = UOk (e, false, u) /\ pure G_one = true /\ homog e = true /\ strictb G_one e = false /\
-   infer G_one e = UErr EMustBeDimensionless) /\
-  (* Max(_1, _2): converted, but strict inference has no rule for functions of two arguments *)
-  (let e := EFn fn_max [EQty 0 1 0; EQty 1 2 0] in
-   convert G_one e None = UOk (e, false, []) /\ pure G_one = true /\ homog e = true /\ strictb G_one e = false /\
-   infer G_one e = UErr EUnexpectedMath).
+Lemma result_infers_repaired :
+  (let e := EAdd [EVar 0; EVar 1] in           (* r[radian] + k[dimensionless] *)
+   convert G_rad e None = UOk (e, false, [(0%Z, 1%Q)]) /\ strictb G_rad e = true /\
+   infer G_rad e = UOk ([(0%Z, 1%Q)], MVar)) /\
+  (let e := EPow (EVar 0) (EQty 0 2 1) in      (* a[mV] ** _2[one] *)
+   convert G_one e None = UOk (e, false, upow [(1%Z, 1%Q)] 2) /\ strictb G_one e = true /\
+   exists r, infer G_one e = UOk r /\ sem_equiv G_one (fst r) (upow [(1%Z, 1%Q)] 2) = true).
 Proof.
-  cbv zeta. split; [|split].
-  - split; [vm_compute; reflexivity|]. split; [vm_compute; reflexivity|]. split; vm_compute; reflexivity.
-  - eexists. split; [vm_compute; reflexivity|]. split; [vm_compute; reflexivity|]. split; [vm_compute; reflexivity|].
-    split; vm_compute; reflexivity.
-  - split; [vm_compute; reflexivity|]. split; [vm_compute; reflexivity|]. split; [vm_compute; reflexivity|].
-    split; vm_compute; reflexivity.
+  cbv zeta. split.
+  - split; [vm_compute; reflexivity|]. split; vm_compute; reflexivity.
+  - split; [vm_compute; reflexivity|]. split; [vm_compute; reflexivity|]. eexists. split; vm_compute; reflexivity.
+Qed.
+
+Lemma result_infers_refuted :
+  let e := EFn fn_max [EQty 0 1 0; EQty 1 2 0] in
+  convert G_one e None = UOk (e, false, []) /\ homog e = true /\ strictb G_one e = false /\
+  infer G_one e = UErr EUnexpectedMath.
+Proof.
+  cbv zeta. split; [vm_compute; reflexivity|]. split; [vm_compute; reflexivity|]. split; vm_compute; reflexivity.
 Qed.
 
 (* the hypotheses are satisfiable by a product with a sum inside whose second operand is converted:
@@ -649,19 +634,18 @@ Definition G_x : env :=
         [[]; [(0%Z, 1%Q)]; [(1%Z, 1%Q)]]                                                   (* units: dimensionless, mV, volt *)
         [(1%Z, None); (2%Z, None)].                                                        (* a : mV, b : volt *)
 Definition e_x : expr := EMul [EAdd [EVar 0; EVar 1]; EVar 0].
-
 Definition e_x' : expr := EMul [EAdd [EVar 0; EMul [EQty (-1) 1000 (-3); EVar 1]]; EVar 0].     (* convert's output *)
 Definition e_x'' : expr := EMul [EAdd [EVar 0; EMul [EQty (-1) 1000 3; EVar 1]]; EVar 0].      (* decorated *)
 Definition D_x : list nunit := [udiv [(0%Z, 1%Q)] [(1%Z, 1%Q)]].                                 (* unit 3 = mV/volt *)
 Definition u_x : nunit := [(0%Z, 1%Q); (0%Z, 1%Q)].                                              (* mV * mV *)
 
 Lemma result_infers_example :
-  pure G_x = true /\ strictb G_x e_x = true /\
+  strictb G_x e_x = true /\
   convert G_x e_x None = UOk (e_x', true, u_x) /\
   erase (tabN G_x) e_x'' = e_x' /\ no_python_exception (ext G_x D_x) e_x'' = true /\
   exists r, infer (ext G_x D_x) e_x'' = UOk r /\ sem_equiv G_x (fst r) u_x = true.
 Proof.
-  split; [vm_compute; reflexivity|]. split; [vm_compute; reflexivity|]. split; [vm_compute; reflexivity|].
+  split; [vm_compute; reflexivity|]. split; [vm_compute; reflexivity|].
   split; [vm_compute; reflexivity|]. split; [vm_compute; reflexivity|].
   exists (u_x, MSym). split; vm_compute; reflexivity.
 Qed.
